@@ -194,9 +194,56 @@ def part_sib(rep, tier):
                 a["own"] = own
                 rep.fail(a, disc, {"kind": "sib", "text": text, "cfg": list(cfg)},
                          "%r [%s] -> %s %s" % (text, cfgname(cfg), hx, decs[hx].text if hx in decs else ""))
-    rep.states += len(cases)
-    rep.distinct_n += len(cases)
+    # a stack pointer written as the only register, '[1*rsp+d]': it is an rsp-index shape AND a no-base shape, so either
+    # option being NASM yields the address-preserving encoding [rsp+d]; only with both STRICT may the literal one appear
+    lone = []
+    for sp_ in ("rsp", "esp"):
+        for d in (None, 0x10, -0x100):
+            mt = isa.mem_text(None, None, sp_, 1, d, "s")
+            for tmpl, w in insns:
+                lone.append((sp_, d, tmpl % mt, tmpl.split()[0]))
+    rows = run_lines([c[2] for c in lone], CFGS)
+    blobs = sorted({h for row in rows for _, h in row if h})
+    decs2 = dict(zip(blobs, decode_many([bytes.fromhex(b) for b in blobs])))
+    for (sp_, d, text, mn), row in zip(lone, rows):
+        at = {"class": "sib-lone-sp", "mnemonic": mn}
+        at.update(shapes.shape_class(None, sp_, 1, d))
+        for cfg, (ret, hx) in zip(CFGS, row):
+            rep.evaluations += 1
+            rep.traces += 1
+            disc = set()
+            if ret != 0:
+                disc.add("rejected")
+            else:
+                dd = decs2[hx]
+                m = next((o for o in dd.ops if o[0] == "m"), None)
+                if dd.consumed != dd.nbytes or not dd.sync or m is None:
+                    disc.add("malformed")
+                else:
+                    lin = dict(m[3])
+                    if lin != {sp_: 1} and not (cfg[1] == "STRICT" and cfg[2] == "STRICT" and lin == {}):
+                        disc.add("address")
+                    if m[4] != (d or 0) % (1 << m[2]):
+                        disc.add("disp")
+            rep.outcomes.add(("lone-sp", cfg[1], cfg[2], hx[:6]))
+            if disc:
+                a = dict(at)
+                a["cfg"] = cfgname(cfg)
+                rep.fail(a, disc, {"kind": "sib", "text": text, "cfg": list(cfg)},
+                         "%r [%s] -> %s %s" % (text, cfgname(cfg), hx, decs2[hx].text if hx in decs2 else ""))
+        by = {}
+        for cfg, (ret, hx) in zip(CFGS, row):
+            by.setdefault((cfg[1], cfg[2]), set()).add((ret, hx))
+        for k, vals in by.items():
+            if len(vals) > 1:
+                a = dict(at)
+                a["cfg"] = "/".join(k)
+                rep.fail(a, ["unrelated-option-changes-bytes"], {"kind": "sib", "text": text, "cfg": ["SMART", k[0], k[1]]},
+                         "%r: bytes depend on the mov-immediate option: %s" % (text, sorted(vals)))
+    rep.states += len(cases) + len(lone)
+    rep.distinct_n += len(cases) + len(lone)
     rep.bounds["sib_shape_lines"] = len(cases)
+    rep.bounds["lone_stack_pointer_index_lines"] = len(lone)
     rep.sample({"text": cases[0][2], "rule": "swap STRICT: literal (no index); swap NASM: address preserved"})
     rep.sample({"text": cases[-1][2], "rule": "nobase STRICT: literal [s*index+disp32]; NASM: address preserved"})
 
